@@ -56,6 +56,7 @@ Section Frame.
   Variable ps : list part.
   Variable B : N.
   Hypothesis Hparts : Forall (part_ok files B) ps.
+  Hypothesis Hcontig : contig 0 ps.
 
   (* segments that walk the chunk positions first .. last in order, each inside one part *)
   Inductive segs_from : N -> list (part * N * N) -> N -> Prop :=
@@ -180,5 +181,255 @@ Section Frame.
             destruct (N.leb_spec (B + first) (f_off f + oo)) as [L2|L2]; simpl; try lia; auto.
           destruct (N.ltb_spec (f_off f + oo) (B + last)); auto.
           rewrite Hnth by lia. f_equal. lia.
+  Qed.
+
+  (* ---------------------------------------------------------------- ChunkIterator walk *)
+
+  Lemma parts_pos : forall p, In p ps -> 0 < p_size p.
+  Proof.
+    intros p Hp. rewrite Forall_forall in Hparts. destruct (Hparts p Hp) as (f & _ & H & _). exact H.
+  Qed.
+
+  Lemma segs_nil_after : forall suf first last, last <= first ->
+    (forall p, In p suf -> 0 < p_size p) -> segs suf first last = [].
+  Proof.
+    induction suf; intros first last Hle Hpos; simpl; auto.
+    pose proof (Hpos a (or_introl eq_refl)).
+    destruct (N.eqb_spec (p_size a) 0); [lia|]. destruct (N.ltb_spec first last); [lia|auto].
+  Qed.
+
+  Definition hd_psize (l : list part) : N := match l with [] => 0 | p :: _ => p_size p end.
+
+  Lemma segs_ok : forall suf c first last, contig c suf -> (forall p, In p suf -> In p ps) ->
+    c <= first -> (first = c \/ first < c + hd_psize suf) -> first <= last ->
+    last <= c + chunk_size suf -> segs_from first (segs suf first last) last.
+  Proof.
+    induction suf as [|p r IH]; intros c first last Hc Hin Hcf Hor Hfl Hlast.
+    - simpl in *. assert (first = last) by lia. subst. constructor.
+    - simpl in Hc. destruct Hc as [Hp Hc]. simpl in Hor, Hlast.
+      pose proof (parts_pos p (Hin p (or_introl eq_refl))) as Hsz.
+      cbn [segs]. destruct (N.eqb_spec (p_size p) 0); [lia|].
+      destruct (N.ltb_spec first last) as [Hlt|Hge].
+      + set (o := first - p_pos p). set (k := N.min (p_size p - o) (last - first)).
+        assert (o < p_size p) by (unfold o; lia).
+        apply sf_cons.
+        * apply Hin. left. reflexivity.
+        * unfold o. lia.
+        * unfold k. lia.
+        * unfold k. lia.
+        * destruct (N.le_gt_cases last (c + p_size p)) as [Hin1|Hmore].
+          -- rewrite segs_nil_after.
+             ++ replace (first + k) with last by (unfold k, o; lia). constructor.
+             ++ lia.
+             ++ intros q Hq. apply parts_pos. apply Hin. right. exact Hq.
+          -- replace (first + k) with (p_pos p + p_size p) by (unfold k, o; lia).
+             apply (IH (c + p_size p)); auto; try lia.
+             intros q Hq. apply Hin. right. exact Hq.
+      + assert (first = last) by lia. subst. constructor.
+  Qed.
+
+  Lemma at_position_ok : forall l c pos, contig c l -> (forall p, In p l -> In p ps) ->
+    c <= pos -> pos < c + chunk_size l ->
+    exists p r, at_position l pos = Some (p :: r) /\ contig (p_pos p) (p :: r) /\
+                (forall q, In q (p :: r) -> In q ps) /\
+                p_pos p <= pos < p_pos p + p_size p /\
+                p_pos p + chunk_size (p :: r) = c + chunk_size l.
+  Proof.
+    induction l as [|a l IH]; intros c pos Hc Hin H1 H2; simpl in *; [lia|].
+    destruct Hc as [Ha Hc].
+    destruct ((p_pos a <=? pos) && (pos <? p_pos a + p_size a)) eqn:E.
+    - rewrite andb_true_iff, N.leb_le, N.ltb_lt in E. exists a, l. simpl.
+      split; auto. split; [split; [auto|rewrite Ha; exact Hc]|]. split; auto. split; lia.
+    - rewrite andb_false_iff, N.leb_gt, N.ltb_ge in E.
+      destruct (IH (c + p_size a) pos Hc ltac:(intros; apply Hin; right; auto) ltac:(lia) ltac:(lia))
+        as (p & r & A1 & A2 & A3 & A4 & A5).
+      exists p, r. split; auto. split; auto. split; auto. split; auto. lia.
+  Qed.
+
+  Lemma buffer_segs_ok : forall pos n, chunk_size ps < two32 -> pos + n <= chunk_size ps ->
+    exists sg, buffer_segs ps pos n = Some sg /\ segs_from pos sg (pos + n).
+  Proof.
+    intros pos n H32 Hfit. unfold buffer_segs.
+    rewrite u32_small by lia.
+    destruct (N.ltb_spec (chunk_size ps) (pos + n)); [lia|].
+    destruct (N.eqb_spec n 0) as [->|Hn].
+    { exists []. split; auto. rewrite N.add_0_r. constructor. }
+    destruct (N.leb_spec (chunk_size ps) pos); [lia|].
+    destruct (at_position_ok ps 0 pos Hcontig ltac:(auto) ltac:(lia) ltac:(lia))
+      as (p & r & A1 & A2 & A3 & A4 & A5).
+    rewrite A1. eexists. split; [reflexivity|].
+    apply (segs_ok (p :: r) (p_pos p)); auto; try lia.
+    right. simpl. lia.
+  Qed.
+
+  (* ---------------------------------------------------------------- chunk memory *)
+
+  Definition find_part (x : N) : option part :=
+    find (fun p => (p_pos p <=? x) && (x <? p_pos p + p_size p)) ps.
+
+  Lemma find_part_in : forall p x, In p ps -> p_pos p <= x < p_pos p + p_size p ->
+    find_part x = Some p.
+  Proof.
+    intros p x Hp Hx. unfold find_part.
+    destruct (find _ ps) as [q|] eqn:E.
+    - apply find_some in E. destruct E as [Hq Hq2].
+      rewrite andb_true_iff, N.leb_le, N.ltb_lt in Hq2.
+      f_equal. eapply contig_unique; eauto.
+    - pose proof (find_none _ _ E p Hp) as Hn. simpl in Hn.
+      rewrite andb_false_iff, N.leb_gt, N.ltb_ge in Hn. lia.
+  Qed.
+
+  Lemma find_part_some : forall x, x < chunk_size ps -> exists p, In p ps /\
+    p_pos p <= x < p_pos p + p_size p /\ find_part x = Some p.
+  Proof.
+    intros x Hx. destruct (contig_cover ps 0 x Hcontig ltac:(lia) ltac:(lia)) as (p & P1 & P2 & P3).
+    exists p. split; auto. split; [lia|]. apply find_part_in; auto.
+  Qed.
+
+  Lemma contig_upper : forall l c p, contig c l -> In p l -> p_pos p + p_size p <= c + chunk_size l.
+  Proof.
+    induction l; intros c p Hc Hp; simpl in *; [contradiction|].
+    destruct Hc as [Ha Hc]. destruct Hp as [->|Hp]; [lia|].
+    pose proof (IHl _ _ Hc Hp). lia.
+  Qed.
+
+  (* byte x of the chunk's memory: padding parts live in cm, file parts alias the store *)
+  Definition cbyte (store : list bytes) (cm : bytes) (x : N) : N :=
+    match find_part x with
+    | Some p => if p_pad p then nth (N.to_nat x) cm 0
+                else raw store (p_file p) (p_foff p + (x - p_pos p))
+    | None => 0
+    end.
+
+  Definition pad_at (x : N) : bool :=
+    match find_part x with Some p => p_pad p | None => false end.
+
+  Lemma write_segs_cm : forall first sg last, segs_from first sg last ->
+    forall data store cm,
+    N.of_nat (length data) = last - first -> chunk_size ps <= N.of_nat (length cm) ->
+    let cm' := snd (write_segs sg data store cm) in
+    length cm' = length cm /\
+    forall x, nth (N.to_nat x) cm' 0 =
+              if pad_at x && (first <=? x) && (x <? last) then nth (N.to_nat (x - first)) data 0
+              else nth (N.to_nat x) cm 0.
+  Proof.
+    induction 1 as [x0|p o k r first last Hin Hpos Hk Hok Hrest IH]; intros data store cm Hd Hcm.
+    - simpl. split; auto. intros x.
+      destruct (pad_at x && (x0 <=? x) && (x <? x0)) eqn:E; auto.
+      rewrite !andb_true_iff, N.leb_le, N.ltb_lt in E. lia.
+    - pose proof (segs_from_le _ _ _ Hrest) as Hle.
+      set (d := firstn (N.to_nat k) data). set (rest := skipn (N.to_nat k) data).
+      assert (Hdl : length d = N.to_nat k) by (unfold d; rewrite firstn_length; lia).
+      assert (Hrl : N.of_nat (length rest) = last - (first + k)) by (unfold rest; rewrite skipn_length; lia).
+      assert (Hnth : forall y, (N.to_nat k <= y)%nat -> nth y data 0 = nth (y - N.to_nat k) rest 0).
+      { intros y Hy. unfold rest. rewrite nth_skipn_add. f_equal. lia. }
+      pose proof (contig_upper ps 0 p Hcontig Hin) as Hup.
+      assert (Hfind : forall x, first <= x < first + k -> find_part x = Some p).
+      { intros x Hx. apply find_part_in; auto. lia. }
+      cbn [write_segs]. fold d. fold rest.
+      destruct (p_pad p) eqn:Epad.
+      + assert (Hfit : (N.to_nat (p_pos p + o) + length d <= length cm)%nat) by lia.
+        specialize (IH rest store (splice cm (p_pos p + o) d) Hrl
+                       ltac:(rewrite splice_length by auto; auto)).
+        destruct IH as [I1 I2]. split; [rewrite I1; apply splice_length; auto|].
+        intros x. rewrite I2. rewrite nth_splice by auto.
+        destruct (N.leb_spec (first + k) x) as [L1|L1]; destruct (N.leb_spec first x) as [L2|L2];
+          destruct (N.ltb_spec x last) as [L3|L3];
+          destruct (Nat.leb_spec (N.to_nat (p_pos p + o)) (N.to_nat x));
+          destruct (Nat.ltb_spec (N.to_nat x) (N.to_nat (p_pos p + o) + length d));
+          rewrite ?andb_true_r, ?andb_false_r; simpl; try lia; auto.
+        * destruct (pad_at x); simpl; auto. rewrite Hnth by lia. f_equal. lia.
+        * unfold pad_at. rewrite Hfind by lia. rewrite Epad. simpl.
+          unfold d. rewrite nth_firstn_lt by lia. f_equal. lia.
+      + specialize (IH rest (upd store (p_file p) (splice (nth (p_file p) store []) (p_foff p + o) d)) cm Hrl Hcm).
+        destruct IH as [I1 I2]. split; auto.
+        intros x. rewrite I2.
+        destruct (N.leb_spec (first + k) x) as [L1|L1]; destruct (N.leb_spec first x) as [L2|L2];
+          destruct (N.ltb_spec x last) as [L3|L3];
+          rewrite ?andb_true_r, ?andb_false_r; simpl; try lia; auto.
+        * destruct (pad_at x); simpl; auto. rewrite Hnth by lia. f_equal. lia.
+        * unfold pad_at. rewrite Hfind by lia. rewrite Epad. reflexivity.
+  Qed.
+
+  (* lengths needed for reading: every mapped window lies inside its file *)
+  Definition windows_ok (store : list bytes) : Prop :=
+    forall p, In p ps -> p_pad p = false ->
+      p_foff p + p_size p <= N.of_nat (length (nth (p_file p) store [])).
+
+  Lemma nseq_length : forall n s, length (nseq s n) = n.
+  Proof. induction n; intros; simpl; auto. Qed.
+
+  Lemma nth_nseq : forall n s j, (j < n)%nat -> nth j (nseq s n) 0 = s + N.of_nat j.
+  Proof.
+    induction n; intros s j H; [lia|]. destruct j; simpl.
+    - lia.
+    - rewrite IHn by lia. lia.
+  Qed.
+
+  Lemma nseq_app : forall a b s, nseq s (a + b) = nseq s a ++ nseq (s + N.of_nat a) b.
+  Proof.
+    induction a; intros b s; simpl.
+    - f_equal. lia.
+    - rewrite IHa. do 3 f_equal. lia.
+  Qed.
+
+  Lemma slice_eq_map : forall (l : bytes) o k (g : N -> N) first,
+    (N.to_nat o + N.to_nat k <= length l)%nat ->
+    (forall x, x < k -> g (first + x) = nth (N.to_nat (o + x)) l 0) ->
+    slice l o k = map g (nseq first (N.to_nat k)).
+  Proof.
+    intros l o k g first Hfit Hg. unfold slice.
+    apply nth_ext with (d := 0) (d' := g 0).
+    - rewrite firstn_length, skipn_length, map_length, nseq_length. lia.
+    - intros j Hj. rewrite firstn_length, skipn_length in Hj.
+      rewrite nth_firstn_lt by lia. rewrite nth_skipn_add.
+      rewrite map_nth. rewrite nth_nseq by lia. rewrite Hg by lia. f_equal. lia.
+  Qed.
+
+  Lemma read_segs_spec : forall first sg last, segs_from first sg last ->
+    forall store cm, windows_ok store -> chunk_size ps <= N.of_nat (length cm) ->
+    read_segs sg store cm = map (cbyte store cm) (nseq first (N.to_nat (last - first))).
+  Proof.
+    induction 1 as [x0|p o k r first last Hin Hpos Hk Hok Hrest IH]; intros store cm Hw Hcm.
+    - simpl. rewrite N.sub_diag. reflexivity.
+    - pose proof (segs_from_le _ _ _ Hrest) as Hle.
+      pose proof (contig_upper ps 0 p Hcontig Hin) as Hup.
+      cbn [read_segs]. rewrite (IH store cm Hw Hcm).
+      replace (N.to_nat (last - first)) with (N.to_nat k + N.to_nat (last - (first + k)))%nat by lia.
+      rewrite nseq_app, map_app. f_equal.
+      + assert (Hfind : forall x, x < k -> find_part (first + x) = Some p).
+        { intros x Hx. apply find_part_in; auto. lia. }
+        destruct (p_pad p) eqn:Epad.
+        * apply slice_eq_map; [lia|]. intros x Hx. unfold cbyte. rewrite Hfind by auto.
+          rewrite Epad. f_equal. lia.
+        * pose proof (Hw p Hin Epad). apply slice_eq_map; [lia|]. intros x Hx.
+          unfold cbyte. rewrite Hfind by auto. rewrite Epad. unfold raw. f_equal. lia.
+      + do 2 f_equal. lia.
+  Qed.
+
+  (* what the chunk memory holds after from_buffer *)
+  Lemma cbyte_after_write : forall first sg last, segs_from first sg last ->
+    forall data store cm,
+    N.of_nat (length data) = last - first -> sized store -> length store = length files ->
+    chunk_size ps <= N.of_nat (length cm) ->
+    forall x, x < chunk_size ps ->
+      cbyte (fst (write_segs sg data store cm)) (snd (write_segs sg data store cm)) x =
+      if (first <=? x) && (x <? last) then nth (N.to_nat (x - first)) data 0
+      else cbyte store cm x.
+  Proof.
+    intros first sg last Hs data store cm Hd Hsz Hlen Hcm x Hx.
+    destruct (write_segs_frame _ _ _ Hs data store cm Hd Hsz Hlen) as (_ & _ & F).
+    destruct (write_segs_cm _ _ _ Hs data store cm Hd Hcm) as (_ & C).
+    destruct (find_part_some x Hx) as (p & P1 & P2 & P3).
+    unfold cbyte. rewrite P3.
+    destruct (p_pad p) eqn:Epad.
+    - rewrite C. unfold pad_at. rewrite P3, Epad. simpl. reflexivity.
+    - rewrite Forall_forall in Hparts. destruct (Hparts p P1) as (f & F1 & F2 & F3 & F4 & F5).
+      rewrite (F (p_file p) f (p_foff p + (x - p_pos p)) F1 ltac:(lia)).
+      replace (f_pad f) with false by congruence. simpl.
+      replace (f_off f + (p_foff p + (x - p_pos p))) with (B + x) by lia.
+      destruct (N.leb_spec (B + first) (B + x)); destruct (N.leb_spec first x);
+        destruct (N.ltb_spec (B + x) (B + last)); destruct (N.ltb_spec x last); simpl; try lia; auto.
+      f_equal. lia.
   Qed.
 End Frame.
